@@ -533,6 +533,7 @@ func main() {
 		os.Exit(2)
 	}
 	run.Rule("case = one complete interleaving of a closed driver (2-4 threads: 1-2 producers x 1-4 pushes, control thread Start/Close, the consumer; capacities 1/2/4; callback error placements) on the real RingBuffer+Processor under the controlled scheduler, explored exhaustively for preemption bounds 0..3 (quick) / 0..4 and unbounded for the drivers whose space closes (thorough); plus every sequential operation sequence of length <=7 (quick) / <=9 (thorough) over {Push, Pull-if-ready, Close, Reset} for capacities 1,2,4,8. states = distinct call/return histories (+ sequential model states); transitions = scheduling points executed; every trace runs on the implementation. non-trivial = distinct history")
+	run.Rule("binding part (whole system, in-memory network, real Client / Server): configured capacity N in {1,2,8,64,256} (thorough: every power of two 1..256) x {recording Client over TCP with the server application stalled in a packet callback, Server session playing over TCP to a reader that stopped reading}; packets pushed one at a time with a quiescence barrier after each until the first refusal; oracle: accepted(N) - N is the same for every N, 0 <= accepted(N) - N <= slack (what the stalled network absorbs); each case run 3 times and required identical")
 	run.Assume("scheduling points at Lock, Cond.Wait, Cond.Signal/Broadcast, channel recv/close and goroutine start; Unlock is not a point (a thread that needs the lock cannot run before it anyway)")
 	run.Assume("sequentially consistent memory (Go mutexes make that adequate for this code); unsynchronised accesses are the business of a separate -race pass, not of this scheduler")
 	run.Assume("reading of the statement: items accepted but discarded by a Close that is concurrent with or later than their acceptance are not 'lost without signal' - Close is the signal")
@@ -545,6 +546,11 @@ func main() {
 		}
 		if err := evid.LoadReplay(run.Replay, &d); err != nil {
 			run.Fatal("replay: %v", err)
+		}
+		if d.Scenario == "" {
+			// a violation of the binding part: its cases are few and quick, re-run them all
+			binding(run)
+			run.Finish()
 		}
 		cj, _ := json.Marshal(d.Choices)
 		b, err := exec.Command(exe, "--worker", d.Scenario, "--choices", string(cj)).Output()
@@ -657,6 +663,7 @@ func main() {
 			run.Sample(map[string]any{"scenario": o.Scenario, "bound": o.Bound, "history": o.Sample})
 		}
 	}
+	binding(run)
 	// auxiliary: the same kinds of drivers free-running under the race detector (thorough tier)
 	if bin := os.Getenv("VERIF_RACE"); bin != "" {
 		cmd := exec.Command(bin, "--iters", "300")
@@ -686,4 +693,78 @@ func main() {
 	run.Set("per_scenario", perScenario)
 	run.Set("bound_completed", completed)
 	run.Finish()
+}
+
+// binding runs the whole-system companion (checks/c16sys): the capacity configured by the user is the
+// capacity of the queue on the media path of a recording Client and of a Server session that plays.
+func binding(run *evid.Run) {
+	bin := os.Getenv("VERIF_SYS")
+	if bin == "" {
+		run.Fatal("VERIF_SYS not set: run through ./vcheck")
+	}
+	caps := "1,2,8,64,256"
+	if run.Thorough() {
+		caps = "1,2,4,8,16,32,64,128,256"
+	}
+	type res struct {
+		Scenario string `json:"scenario"`
+		N        int    `json:"capacity"`
+		Accepted int    `json:"accepted"`
+		Err      string `json:"harness_error"`
+		Pushes   int    `json:"pushes"`
+	}
+	var out struct {
+		Cases []res `json:"cases"`
+		Slack int   `json:"slack"`
+	}
+	var first string
+	for rep := 0; rep < 3; rep++ {
+		b, err := exec.Command(bin, "--caps", caps).Output()
+		if err != nil {
+			run.Fatal("binding binary failed: %v", err)
+		}
+		if rep == 0 {
+			first = string(b)
+			if err := json.Unmarshal(b, &out); err != nil {
+				run.Fatal("binding output: %v", err)
+			}
+		} else if string(b) != first {
+			run.Flaky("binding: the accepted counts differ between two runs of the same cases")
+			return
+		}
+	}
+	base := map[string]int{}
+	tab := map[string]map[string]int{}
+	for _, c := range out.Cases {
+		run.Eval(1)
+		run.Trace(1)
+		run.Transition(int64(c.Pushes))
+		run.State(fmt.Sprint("binding/", c.Scenario, "/", c.N))
+		run.Nontrivial(fmt.Sprint("binding/", c.Scenario, "/", c.N))
+		run.Outcome(fmt.Sprint("binding/", c.Scenario, "/+", c.Accepted-c.N))
+		if tab[c.Scenario] == nil {
+			tab[c.Scenario] = map[string]int{}
+		}
+		tab[c.Scenario][fmt.Sprint(c.N)] = c.Accepted
+		if c.Err != "" {
+			run.Violation("binding/"+c.Scenario+"/harness", map[string]any{"case": c, "msg": c.Err})
+			continue
+		}
+		d := c.Accepted - c.N
+		if _, ok := base[c.Scenario]; !ok {
+			base[c.Scenario] = d
+		}
+		switch {
+		case d < 0:
+			run.Violation("binding/"+c.Scenario+"/refused-below-configured-capacity", map[string]any{"case": c,
+				"msg": fmt.Sprintf("configured capacity %d, but push %d was refused with the consumer stalled: only %d items were accepted", c.N, c.Pushes, c.Accepted)})
+		case d > out.Slack:
+			run.Violation("binding/"+c.Scenario+"/accepted-beyond-configured-capacity", map[string]any{"case": c,
+				"msg": fmt.Sprintf("configured capacity %d, %d items accepted with the consumer stalled (the stalled network absorbs at most %d)", c.N, c.Accepted, out.Slack)})
+		case d != base[c.Scenario]:
+			run.Violation("binding/"+c.Scenario+"/capacity-does-not-follow-configuration", map[string]any{"case": c,
+				"msg": fmt.Sprintf("accepted - configured = %d at capacity %d but %d at the first capacity: the queue size does not follow the configured value", d, c.N, base[c.Scenario])})
+		}
+	}
+	run.Set("binding_accepted_by_capacity", tab)
 }
